@@ -14,6 +14,7 @@ import (
 	"unsafe"
 
 	dtpb "github.com/google/fhir/go/proto/google/fhir/proto/r4/core/datatypes_go_proto"
+	epb "github.com/google/fhir/go/proto/google/fhir/proto/r4/core/resources/encounter_go_proto"
 	"github.com/verily-src/fhirpath-go/fhirpath"
 	"github.com/verily-src/fhirpath-go/fhirpath/compopts"
 	"github.com/verily-src/fhirpath-go/fhirpath/evalopts"
@@ -194,11 +195,23 @@ func runC03(c *Ctx) {
 		{"Patient", `{"resourceType":"Patient","id":"p","managingOrganization":{"reference":"Organization/org1/_history/3","display":"d"},"generalPractitioner":[{"reference":"Practitioner/pr/_history/1"},{"reference":"#c1"},{"reference":"urn:uuid:53fefa32-fcbb-4ff8-8a92-55ee120877b7"}],"link":[{"other":{"reference":"RelatedPerson/r/_history/22"},"type":"seealso"}],"name":[{"given":["a","b"]},{"given":["a","b"]}]}`},
 		{"Observation", `{"resourceType":"Observation","id":"o","status":"final","code":{"text":"c"},"subject":{"reference":"Patient/123/_history/4"},"performer":[{"reference":"Practitioner/x"},{"reference":"Organization/y/_history/9"}],"valueQuantity":{"value":1.50,"unit":"mg"},"referenceRange":[{"low":{"value":1.5},"high":{"value":1.50}}]}`},
 	}
-	for ri := 0; ri < nRes+len(fixed); ri++ {
+	// resources built directly as protos, with fields a JSON document cannot leave unset: temporal
+	// elements without a precision, a Quantity without a value, an extension without a value
+	built := map[int]fhir.Resource{
+		len(fixed): &epb.Encounter{Id: fhir.ID("e"), Period: &dtpb.Period{Start: &dtpb.DateTime{ValueUs: 1600000000000000, Timezone: "+05:30"}, End: &dtpb.DateTime{ValueUs: 1600003600000000, Timezone: "Z"}},
+			Extension: []*dtpb.Extension{{Url: fhir.URI("u"), Value: &dtpb.Extension_ValueX{Choice: &dtpb.Extension_ValueX_Date{Date: &dtpb.Date{ValueUs: 1600000000000000}}}}, {Url: fhir.URI("v"), Value: &dtpb.Extension_ValueX{Choice: &dtpb.Extension_ValueX_Time{Time: &dtpb.Time{ValueUs: 3600000000}}}},
+				{Url: fhir.URI("w"), Value: &dtpb.Extension_ValueX{Choice: &dtpb.Extension_ValueX_Instant{Instant: &dtpb.Instant{ValueUs: 1600000000000000}}}}, {Url: fhir.URI("q"), Value: &dtpb.Extension_ValueX{Choice: &dtpb.Extension_ValueX_Quantity{Quantity: &dtpb.Quantity{Unit: fhir.String("mg")}}}}}},
+	}
+	builtPrograms := []string{"Encounter.period.start < Encounter.period.end", "Encounter.period.start = Encounter.period.end", "Encounter.period.start.toString()", "Encounter.period.descendants().distinct()", "Encounter.descendants().toString()", "Encounter.extension.value",
+		"Encounter.extension.value.toString()", "Encounter.extension.value = Encounter.extension.value", "Encounter.extension.value.distinct()", "Encounter.period.start + 1 day", "Encounter.period.start.toDate()", "Encounter.period.start is DateTime", "Encounter.extension.value.select($this < $this)",
+		"Encounter.extension.value.where($this = $this)", "Encounter.descendants().isDistinct()", "Encounter.extension.value.toDateTime()", "Encounter.extension.value.toTime()", "Encounter.extension.value.convertsToDate()"}
+	for ri := 0; ri < nRes+len(fixed)+len(built); ri++ {
 		var rn string
 		var res fhir.Resource
 		var js []byte
-		if ri < len(fixed) {
+		if b, ok := built[ri]; ok {
+			rn, res, js = "Encounter", b, []byte(`{"resourceType":"Encounter","id":"e"}`)
+		} else if ri < len(fixed) {
 			rn = fixed[ri].rn
 			res = mustResource(fixed[ri].js)
 			js = []byte(fixed[ri].js)
@@ -227,6 +240,9 @@ func runC03(c *Ctx) {
 			nameColl = o.Coll
 		}
 		targeted := c03Targeted(rn)
+		if _, ok := built[ri]; ok {
+			targeted = append(builtPrograms, targeted...)
+		}
 		for pi := 0; pi < nProg+len(targeted); pi++ {
 			var src string
 			if pi < len(targeted) {
